@@ -414,6 +414,11 @@ def parseMessage(rawMessage, oobFDs):
             pass
 
     if m.signature:
+        if not isinstance(m.signature, str) or len(m.signature) > 255:
+            raise error.MarshallingError(
+                'Invalid signature header field: ' + repr(m.signature)[:64]
+            )
+
         if oobFDs is not None:
             # a UNIX_FD argument refers to the descriptors that arrived with
             # this message (the count in its UNIX_FDS header), never to the
